@@ -109,8 +109,11 @@ def check_spaces(orc):
     shared = np.zeros(len(nvec), dtype=np.int64)   # a caller-owned buffer
     for vec in vectors:
         count += 1
-        block = (count // 8) % 3      # runs of 8 vectors per encoding
-        if block == 0:
+        block = (count // 8) % 4      # runs of 8 vectors per encoding
+        if block == 3:
+            enc = np.array(vec, dtype=np.uint8 if max(nvec) < 256
+                           else np.uint32)
+        elif block == 0:
             enc = np.array(vec)
         elif block == 1:
             enc = list(vec)
